@@ -96,6 +96,9 @@ def check(ctx, rep):
     rep.rule("R17j", "every pass of a repeat starts from the element's initial state: on re-entry cmdRepeat re-establishes each register that the "
              "commands ordered after tal:repeat (content, attributes, omit-tag) can change", floor=1)
     rep.rule("R17g", "keyword discriminators of one if/elif chain index the same position", floor=0)
+    rep.rule("R17k", "TALES expressions have their prescribed value: Context.evaluate is evaluated by the walker on representative expressions "
+             "(alternation, exists / nocall / not / string prefixes, nothing / default, sub-paths) over a small context of true, false, "
+             "empty and missing names", floor=1)
     mod = prog.modules.get("simpletal.simpleTAL")
     tales = prog.modules.get("simpletal.simpleTALES")
     if mod is None or tales is None:
@@ -559,6 +562,9 @@ def check(ctx, rep):
 
     context_symmetry(ctx, rep, "R17h", tales)
 
+    # ------------------------------------------------------------------ R17k
+    tales_evaluation_obligations(ctx, rep, "R17k", tales)
+
     # ------------------------------------------------------------------ R17i
     ctxcls = tales.classes.get("Context")
     ev = ctxcls.methods.get("evaluate") if ctxcls else None
@@ -688,3 +694,92 @@ def check(ctx, rep):
                         rep.add("R17g", f"{f.qualname}: keywords {[c[2] for c in chain]} tested at {sorted(idx)}", len(idx) == 1, ctx.where(f, n),
                                 "" if len(idx) == 1 else f"the alternatives of one keyword position are looked for at different positions {sorted(idx)} of {chain[0][0]}",
                                 key=f"R17g|{f.qualname}|{chain[0][0]}")
+
+
+# ---------------------------------------------------------------------------------------------- R17k
+_DEFAULT = "<the default value>"
+_RAISES = "<PathNotFound>"
+# names of the model context: t true text, f empty text (exists, false), z zero, n None (exists, is nothing), d mapping, lst sequence;
+# a, b and q are defined nowhere
+_TALES_LOCALS = {"t": "x", "f": "", "z": 0, "n": None, "d": {"k": "v", "e": ""}, "lst": [10, 20], "u": "y"}
+_TALES_CASES = [
+    # paths and alternation: the first alternative that exists gives the value, whatever its truth
+    ("t", "x"), ("path:t", "x"), ("a | t", "x"), ("a|t", "x"), ("a | b | t", "x"), ("a | f | t", ""), ("z | t", 0), ("t | u", "x"),
+    ("a | b", _RAISES), ("a", _RAISES), ("a | nothing", None), ("nothing", None), ("n", None), ("a | default", _DEFAULT),
+    ("a | string:lit", "lit"), ("a | exists: b", 0), ("a | not: b", 1), ("d/k", "v"), ("d/q | t", "x"), ("d/q", _RAISES), ("lst/1", 20),
+    ("a | d/q | d/k", "v"),
+    # exists: true when a path exists (whatever its value); later alternatives are whole expressions
+    ("exists: t", 1), ("exists: a", 0), ("exists: f", 1), ("exists: n", 1), ("exists: a | t", 1), ("exists: a | b", 0),
+    ("exists:a | b | t", 1), ("exists: a | exists: b", 0), ("exists: a | exists: b | exists: t", 1), ("exists: a | exists: t | exists: b", 1),
+    ("exists: d/k", 1), ("exists: d/q", 0), ("exists: d/e", 1),
+    # nocall: the same alternation, the value is handed on as it is
+    ("nocall: t", "x"), ("nocall: a | t", "x"), ("nocall: a | b", _RAISES), ("nocall: a | f | t", ""), ("nocall: a | b | t", "x"),
+    ("nocall: a | string:s", "s"),
+    # not: missing, nothing, empty and zero are false; everything else is true
+    ("not: a", 1), ("not: t", 0), ("not: f", 1), ("not: z", 1), ("not: n", 1), ("not: a | t", 0), ("not: a | b", 1), ("not: exists: a", 1),
+    ("not: exists: t", 0), ("not: lst", 0), ("not: default", 0), ("not: not: t", 1),
+    # string: literal text, $$, ${path expression}, $name
+    ("string:hello", "hello"), ("string:a$$b", "a$b"), ("string:${t}", "x"), ("string:hi ${a | t}!", "hi x!"), ("string:$t and $t", "x and x"),
+    ("string:[${n}]", "[]"), ("string:${z}", "0"), ("string:${d/k}${t}", "vx"), ("string:", ""),
+]
+
+
+def tales_evaluation_obligations(ctx, rep, rule, tales):
+    """Context.evaluate, walked as an evaluator (exact loops, bounded recursion) over a constant context, for each
+    representative expression: the value returned, or the PathNotFoundException that escapes, has to be the prescribed one."""
+    from ..paths import Const, PathLimit, Walker
+
+    prog = ctx.prog
+    C = tales.classes.get("Context")
+    ev = C.methods.get("evaluate") if C else None
+    if ev is None or len(ev.params) < 2:
+        rep.fail(rule, "Context.evaluate", detail="TALES evaluation entry point not found")
+        return
+    glob = {"nothing": None, "default": _DEFAULT}
+    default_name = None
+    for name, vals in tales.globals.items():
+        if name.upper().startswith("DEFAULT") and len(vals) == 1 and isinstance(vals[0], ast.Constant) and isinstance(vals[0].value, str):
+            default_name = name
+            glob["default"] = vals[0].value
+    problems, undecided, n = [], [], 0
+    for expr, want in _TALES_CASES:
+        if want is _DEFAULT:
+            want = glob["default"]
+        facts = {"self.locals": Const(dict(_TALES_LOCALS)), "self.globals": Const(dict(glob)), "self.true": Const(1), "self.false": Const(0),
+                 "self.allowPythonPath": Const(0)}
+        w = Walker(prog, ctx.resolver, exact_loops=True, unroll=8, inline=lambda fn, t, d: d < 24 and (fn.cls is C or fn.module is tales),
+                   assumptions=dict(facts), max_paths=20000, max_depth=24, recursion=6)
+        env = {ev.params[1]: Const(expr)}
+        if len(ev.params) > 2:
+            env[ev.params[2]] = Const(None)
+        try:
+            outs = set()
+            for p in w.run(ev, C, env=env, facts=dict(facts)):
+                if p.kind == "raise":
+                    outs.add(("raise", str(p.value).split(".")[-1]))
+                elif p.kind == "return" and p.value is not None and p.value.kind == "const":
+                    outs.add(("value", repr(p.value.value)))
+                elif p.kind == "fall":
+                    outs.add(("value", repr(None)))
+                else:
+                    outs.add(("?", ""))
+        except (PathLimit, RecursionError):
+            outs = {("?", "")}
+        if len(outs) != 1 or next(iter(outs))[0] == "?":
+            undecided.append(expr)
+            continue
+        n += 1
+        kind, got = next(iter(outs))
+        if want is _RAISES:
+            if not (kind == "raise" and got == "PathNotFoundException"):
+                problems.append(f"`{expr}` gives {got} where no alternative exists (PathNotFoundException prescribed)")
+        elif kind == "raise":
+            problems.append(f"`{expr}` raises {got}, prescribed value {want!r}")
+        elif got != repr(want) and not (want in (0, 1) and type(want) is int and got in (repr(bool(want)),)):
+            problems.append(f"`{expr}` evaluates to {got}, prescribed value {want!r}")
+    decided_enough = n >= len(_TALES_CASES) // 2
+    rep.add(rule, f"{ev.qualname}: representative expressions have the prescribed value [{n} of {len(_TALES_CASES)} evaluated]",
+            not problems and decided_enough, ctx.where(ev),
+            "; ".join(problems[:4]) if problems else ("" if decided_enough else f"the walker could follow only {n} expressions (not: {undecided[:3]})"),
+            key=f"{rule}|evaluate", nontrivial=decided_enough)
+    rep.extra["tales_undecided"] = undecided
